@@ -80,7 +80,7 @@ def run(res):
     lib.aux_props_stage(res, "C06Aux.v", ["AUX_C06_cltv_rule_is_enforced_by_source",
                                          "AUX_C06_cltv_violation_is_refused_by_source",
                                          "AUX_C06_cltv_bounds_only_tighten",
-                                         "AUX_C06_cltv_bounds_are_extrema_of_history"])
+                                         "AUX_C06_cltv_bounds_are_extrema_of_history", "AUX_C06_cltv_nonvacuous"])
     # the same theorems (and C01-C03) over joint histories of the whole node, where the payment verdict of a
     # commitment update is computed from the ledger and the enforcement verdict from the counters
     lib.extra_props_stage(res, "Joint.v", ["J_C01_secret_needs_successor", "J_C02_signed_and_revoked_disjoint",
